@@ -69,7 +69,7 @@ TECH = {
             'Relies on C04 for vec min/max/anyLessThan. Not decided: rounding ("within rounding"), NaN bounds, correctness of xfmPoint itself (C06), conditioning of the affine map; clamp on inverted ranges is a precondition.'),
     'C06': ('translation validation of identity drivers: LLVM-IR value-graph normal form of both sides (real compiler does overload resolution/inlining), exact rational-function identity with sympy; AST/CFG shape rules (linear program over branch guards, dominance, interval iteration of the Newton step in the singular-value domain)',
             'Real-number semantics of float operations; non-zero denominators; sin^2+cos^2=1 and the double-angle formulas as trig facts. Not decided: '
-            'tolerance vs condition number (rounding) beyond the conditioning/orthogonal() clauses, the slerp interpolation formula, SIMD rcp/rsqrt approximations (C07; the padded SIMD configuration skips the three identities that go through them); orthogonal() assumes singular values in [1/64, 64]. '
+            'tolerance vs condition number (rounding) beyond the conditioning/orthogonal() clauses, the slerp weights strictly between the end points, SIMD rcp/rsqrt approximations (C07; the padded SIMD configuration skips the three identities that go through them); orthogonal() assumes singular values in [1/64, 64]. '
             'AffineSpaceT::rotate(p, quaternion) cannot be instantiated at all (observation).'),
     'C07': ('LLVM-IR value-graph normal form of identity drivers + interval bound of the Newton-Raphson error polynomial; AST purity rule',
             'Real-number reading of float operations with relative rounding <= 2^-24 per operation (no under/overflow); rcpss/rsqrtss estimate error '
